@@ -836,3 +836,6 @@ def build_bomb(case):
         fsize - 512: b"\x00" * 512,
     }
     return core.SparseFile(fsize, chunks, salt=case.get("salt", 0))
+
+from harness.readers import under_O  # noqa: E402
+SUITES["vmdk_pyO"] = under_O(SUITES["vmdk"])
